@@ -906,6 +906,23 @@ fn gen_and_record<T: Sc>(mode: &str, count: usize, rng: &mut StdRng) -> Vec<RunO
                 if i % 7 == 3 {
                     small_unit(&mut rs);
                 }
+                if i % 5 == 1 {
+                    // a caller's singular value threshold far below every singular value: truncates nothing
+                    // (a fiftieth of the smallest singular value of the weighted basis matrix at the start and at the truth)
+                    let mut smin = f64::INFINITY;
+                    let truth = rs.cert.as_ref().map(|c| c.truth.clone()).unwrap_or_else(|| rs.start.clone());
+                    for a in [&rs.start, &truth] {
+                        if let Some(phi) = model_matrix(&rs, a) {
+                            let pw = DMatrix::<f64>::from_fn(phi.nrows(), phi.ncols(), |r, c| rs.w.as_ref().map(|w| w[r].to64()).unwrap_or(1.0) * phi[(r, c)].to64());
+                            smin = pw.singular_values().iter().fold(smin, |m, v| m.min(*v));
+                        }
+                    }
+                    let floor = if T::NAME == "f64" { 1e-6 } else { 1e-4 };
+                    if smin.is_finite() && smin / 50.0 >= floor {
+                        rs.eps = Some(T::of64(smin / 50.0));
+                        rs.label = format!("{} user-threshold", rs.label);
+                    }
+                }
                 outs.push(record_run(&rs));
             }
         }
